@@ -520,3 +520,18 @@ PROPS["C07"].rule += "; assembled solvers with h_start = time step on a slow rea
 for _pid in ("C08", "C09", "C10", "C11", "C12", "C13", "C14"):
     if PROPS[_pid].oracle_tokens is not None:
         PROPS[_pid].oracle_tokens = PROPS[_pid].oracle_tokens + ["ORACLE_VALID_INPUT_REFUSED"]
+
+
+# C06: the scripted runs whose error norm is NaN / Inf belong to "a truthful outcome" too (the status must say so)
+_c06_gen = PROPS["C06"].generate
+PROPS["C06"].generate = lambda rng, tier: _c06_gen(rng, tier) + G.gen_rosmock_special(rng, tier)[:(90 if tier == "quick" else 900)]
+PROPS["C06"].oracle_tokens = PROPS["C06"].oracle_tokens + ["ORACLE_CONVERGED_WITH_NONFINITE:error_norm_not_reported"]
+
+PROPS["C06"].family_driver = dict(PROPS["C06"].family_driver, nerr=("drv_integrators", "plain"))
+PROPS["C06"].model_families = set(PROPS["C06"].model_families) | {"nerr"}
+_c06_gen2 = PROPS["C06"].generate
+PROPS["C06"].generate = lambda rng, tier: _c06_gen2(rng, tier) + G.gen_nerr(rng, "quick")
+PROPS["C06"].oracle_tokens = PROPS["C06"].oracle_tokens + ["ORACLE_ERROR_NORM_HIDES_NAN"]
+for _pid in ("C07", "C10"):
+    if PROPS[_pid].oracle_tokens is not None:
+        PROPS[_pid].oracle_tokens = PROPS[_pid].oracle_tokens + ["ORACLE_ERROR_NORM_HIDES_NAN"]
